@@ -22,7 +22,7 @@ package verifier
 
 //@ func (v *Verifier) Verify
 //@   props C14 C07
-//@   requires v != nil && !v.mu.held && v.cscaCertPool != nil && (v.aaChallenge != nil ==> allocated(v.aaChallenge))
+//@   requires v != nil && !v.mu.held && v.cscaCertPool != nil
 //@   ensures "lock-released": !v.mu.held
 //@   ensures "document-or-error": (result0 != nil) == (result1 == nil)
 //@   proves "nonce-binding": result1 == nil && v.aaChallenge != nil && caBundle.ActiveAuth != nil ==> caBundle.ActiveAuth.Nonce === v.aaChallenge
